@@ -168,6 +168,9 @@ func C03(t *rapid.T) *world.Scenario {
 			rq.ReuseReq = true
 		}
 		odd := 5
+		if swr {
+			odd = 20 // the background refresh has to key what it stores like the foreground did
+		}
 		if strings.Contains(u, "%25eth") {
 			// hosts whose text does not survive being re-parsed: the odd forms matter most here
 			odd = 35
@@ -201,6 +204,30 @@ func C03(t *rapid.T) *world.Scenario {
 			sc.Steps = append(sc.Steps, mk("GET", plain, nil), mk("GET", glued, nil))
 		}
 		sc.Note = "glue"
+		return sc
+	}
+	if Pct(t, "absform", 5) {
+		// the absolute form on the request line names the authority; a Host field that says
+		// something else is ignored. Requests for different authorities that carry the same
+		// Host override are different requests.
+		path := "/" + Pick(t, "abs-seg", "a", "b", "%2F")
+		if Pct(t, "abs-q", 40) {
+			path += "?" + Pick(t, "abs-qa", "q=1", "q=2")
+		}
+		host := Pick(t, "abs-override", "v.test", "a.test", "b.test:8080")
+		k := rapid.IntRange(2, 4).Draw(t, "abs-n")
+		for i := 0; i < k; i++ {
+			lbl := "abs" + itoa(int64(i))
+			u := Pick(t, lbl+"-scheme", "http", "https") + "://" + Pick(t, lbl+"-host", "a.test", "b.test", "a.test:8080", "127.0.0.1") + path
+			st := mk("GET", u, nil)
+			st.Req.DialVia, st.Req.Rootless = "", false
+			st.Req.OpaqueForm = Pick(t, lbl+"-form", 2, 2, 3, 0)
+			if st.Req.OpaqueForm != 0 && Pct(t, lbl+"-override", 70) {
+				st.Req.HostOverride = host
+			}
+			sc.Steps = append(sc.Steps, st)
+		}
+		sc.Note = "absform"
 		return sc
 	}
 	if Pct(t, "zoned", 5) {
@@ -262,6 +289,23 @@ func C03(t *rapid.T) *world.Scenario {
 			st.Req.EmptyMethod = true
 		}
 		sc.Steps = append(sc.Steps, st)
+	}
+	// a request sent to one address on behalf of another authority (Request.Host) says nothing
+	// about the URI whose authority IS that address: ask for that one as well, after whatever
+	// the requests so far (and their background refreshes) have stored
+	for _, st := range append([]world.Step(nil), sc.Steps...) {
+		if st.Op == "req" && st.Req.DialVia != "" && Pct(t, "viaaddr"+itoa(int64(len(sc.Steps))), 60) {
+			if i := strings.Index(st.Req.URL, "://"); i >= 0 {
+				rest := st.Req.URL[i+3:]
+				j := strings.IndexAny(rest, "/?#")
+				if j < 0 {
+					j = len(rest)
+				}
+				plain := mk("GET", st.Req.URL[:i+3]+st.Req.DialVia+rest[j:], nil)
+				plain.Req.DialVia, plain.Req.OpaqueForm, plain.Req.Rootless = "", 0, false
+				sc.Steps = append(sc.Steps, plain)
+			}
+		}
 	}
 	// come back to URIs already used: what the requests in between stored must not have
 	// displaced or shadowed what these get
